@@ -1629,10 +1629,116 @@ def fam_eq_random(tier, seed, extra=()):
     return out
 
 
+# ------------------------------------------------------------------------------------------------
+# random scalar expression trees with an oracle (C08): the same expression evaluated (1) with constant leaves
+# (folded at parse time) and (2) with the leaves as function parameters (run time)
+class _EvalErr(Exception):
+    def __init__(self, kind):
+        self.kind = kind
+
+
+class _ExprGen:
+    def __init__(self, rnd):
+        self.r = rnd
+        self.leaves = []   # (name, type, value)
+
+    def leaf(self, typ):
+        r = self.r
+        if typ == "int":
+            v = r.choice([0, 1, -1, 2, 3, 7, -7, 63, 64, 65, MAX, MIN, MIN + 1, 1 << 32, (1 << 53) + 1, r.randint(-100, 100)])
+        elif typ == "float":
+            v = r.choice([0.0, -0.0, 1.0, -1.5, 0.1, 0.2, 1e16, 1e308, 5e-324, math.inf, -math.inf, math.nan, 3.0])
+        else:
+            v = r.random() < 0.5
+        name = f"l{len(self.leaves)}"
+        self.leaves.append((name, typ, v))
+        return ("leaf", name, typ, v)
+
+    def gen(self, typ, d):
+        r = self.r
+        if d <= 0 or r.random() < 0.25:
+            return self.leaf(typ)
+        if typ == "int":
+            c = r.random()
+            if c < 0.8:
+                return ("iop", r.choice(["+", "-", "*", "/", "%", "**", "<<", ">>", "&", "|", "^", "+", "-", "*"]), self.gen("int", d - 1), self.gen("int", d - 1))
+            return ("iun", r.choice(["-", "!"]), self.gen("int", d - 1))
+        if typ == "float":
+            if r.random() < 0.85:
+                return ("fop", r.choice(["+", "-", "*", "/"]), self.gen("float", d - 1), self.gen("float", d - 1))
+            return ("fun", "-", self.gen("float", d - 1))
+        c = r.random()
+        if c < 0.3:
+            return ("icmp", r.choice(["<", "<=", ">", ">=", "==", "!="]), self.gen("int", d - 1), self.gen("int", d - 1))
+        if c < 0.55:
+            return ("fcmp", r.choice(["<", "<=", ">", ">=", "==", "!="]), self.gen("float", d - 1), self.gen("float", d - 1))
+        if c < 0.85:
+            return ("bop", r.choice(["&&", "||", "&", "|", "^", "==", "!="]), self.gen("bool", d - 1), self.gen("bool", d - 1))
+        return ("bun", "!", self.gen("bool", d - 1))
+
+    def render(self, e):
+        k = e[0]
+        if k == "leaf":
+            return e[1]
+        if k in ("iun", "fun", "bun"):
+            return f"({e[1]}{self.render(e[2])})"
+        return f"({self.render(e[2])} {e[1]} {self.render(e[3])})"
+
+    def ev(self, e):
+        k = e[0]
+        if k == "leaf":
+            return e[3]
+        if k == "iun":
+            v = self.ev(e[2])
+            return wrap(-v) if e[1] == "-" else ~v
+        if k == "fun":
+            return bits_f(f_bits(self.ev(e[2])) ^ (1 << 63))
+        if k == "bun":
+            return not self.ev(e[2])
+        if k == "bop" and e[1] in ("&&", "||"):
+            a = self.ev(e[2])
+            if e[1] == "&&":
+                return self.ev(e[3]) if a else False
+            return True if a else self.ev(e[3])
+        a = self.ev(e[2])
+        b = self.ev(e[3])
+        if k in ("iop", "icmp"):
+            v = int_op(e[1], a, b)
+            if isinstance(v, Err):
+                raise _EvalErr(v.msg)
+            return v
+        if k in ("fop", "fcmp"):
+            return float_op(e[1], a, b)
+        return {"&": a and b, "|": a or b, "^": a != b, "==": a == b, "!=": a != b}[e[1]]
+
+
+def fam_expr_random(tier, seed, extra=()):
+    out = []
+    n = 400 if tier == "quick" else 5000
+    rnd = random.Random(99991 * (seed + 1))
+    for k in range(n):
+        g = _ExprGen(random.Random(rnd.getrandbits(64)))
+        typ = rnd.choice(["int", "int", "float", "bool"])
+        e = g.gen(typ, rnd.randint(1, 3))
+        if not g.leaves:
+            continue
+        try:
+            exp = g.ev(e)
+        except _EvalErr as x:
+            exp = Err(x.kind)
+        txt = g.render(e)
+        vs = {n_: v for n_, _t, v in g.leaves}
+        params = ", ".join(f"{n_}: {t}" for n_, t, _v in g.leaves)
+        args = ", ".join(n_ for n_, _t, _v in g.leaves)
+        out.append(Case(f"xr/{k}/folded", txt, exp, vs, what="constant leaves"))
+        out.append(Case(f"xr/{k}/runtime", f"f := ({params}) -> any {{ return {txt} }}; f({args})", exp, vs, what="run-time leaves"))
+    return out
+
+
 FAMILIES = {
     "unary:-": fam_unary, "bitwise": fam_bitwise, "compare": fam_compare, "float": fam_float, "eq": fam_eq,
     "eq_array": fam_eq_array, "index": fam_index, "slice": fam_slice, "order": fam_order, "control": fam_control,
-    "fold": fam_fold, "logic": fam_fold_logic, "twins": fam_twins, "twins_random": fam_twins_random, "control_random": fam_control_random, "eq_random": fam_eq_random,
+    "fold": fam_fold, "logic": fam_fold_logic, "twins": fam_twins, "twins_random": fam_twins_random, "control_random": fam_control_random, "eq_random": fam_eq_random, "expr_random": fam_expr_random,
 }
 
 
